@@ -49,7 +49,14 @@ def claim_scenario(seed, nca=None, sends=False, requests=False):
         t = rng.choice([0, 0, 1000, 100000, 249000, 251000, 400000, 900000])
         delay = rng.choice([0, 0, 1000, 200000, 500000])
         ops.append({"t": t, "node": "ABCD"[i], "op": "start", "ca": 1, "delay": delay})
-    tmax = max(o["t"] + o["delay"] for o in ops)
+    # stop() and start() again: inside the claim delay, inside the veto wait, after the CA has become operational
+    for o in list(ops):
+        if rng.random() < 0.2:
+            ts = o["t"] + rng.choice([100, o["delay"] + 100_000, o["delay"] + 400_000])
+            ops.append({"t": ts, "node": o["node"], "op": "stop", "ca": 1})
+            ops.append({"t": ts + rng.choice([50_000, 100_000, 600_000]), "node": o["node"], "op": "start", "ca": 1,
+                        "delay": rng.choice([0, 1000, 300_000])})
+    tmax = max(o["t"] + o.get("delay", 0) for o in ops)
     if sends:
         for _ in range(rng.randint(2, 8)):
             n = rng.choice(nodes)["name"]
